@@ -46,6 +46,9 @@ type TypeEntry struct {
 
 const fxPkg = "github.com/functionx/fx-core/"
 
+// TxEnvelopeTypes: the parts of a signed transaction (SDK types consumed by fx-core's ante handler).
+var TxEnvelopeTypes = []string{"/cosmos.tx.v1beta1.TxBody", "/cosmos.tx.v1beta1.AuthInfo", "/cosmos.tx.v1beta1.TxRaw"}
+
 // FxMessageTypes lists the registered fx-core message type URLs (with the interfaces they implement).
 func FxMessageTypes(reg codectypes.InterfaceRegistry) map[string][]string {
 	out := map[string][]string{}
@@ -352,6 +355,21 @@ func BuildTable(reg codectypes.InterfaceRegistry) ([]TypeEntry, []string) {
 		ifs := types[u]
 		sort.Strings(ifs)
 		e := TypeEntry{Name: "msg:" + u, Group: "msg", Fields: flatten(md, "", 0, map[protoreflect.FullName]bool{md.FullName(): true}), DynWords: []int{}, Ifaces: ifs}
+		for _, f := range e.Fields {
+			if strings.HasPrefix(f.Kind, "unknown:") {
+				missing = append(missing, fmt.Sprintf("%s field %s: no value classes for kind %q", u, f.Path, f.Kind))
+			}
+		}
+		table = append(table, e)
+	}
+	// the transaction envelope every message arrives in: what the ante handler (ante/ante.go, ante/pubkey.go, …) reads
+	for _, u := range TxEnvelopeTypes {
+		md, err := descriptorOf(u)
+		if err != nil {
+			missing = append(missing, fmt.Sprintf("%s: no descriptor: %v", u, err))
+			continue
+		}
+		e := TypeEntry{Name: "tx:" + u, Group: "tx", Fields: flatten(md, "", 0, map[protoreflect.FullName]bool{md.FullName(): true}), DynWords: []int{}}
 		for _, f := range e.Fields {
 			if strings.HasPrefix(f.Kind, "unknown:") {
 				missing = append(missing, fmt.Sprintf("%s field %s: no value classes for kind %q", u, f.Path, f.Kind))
